@@ -253,11 +253,11 @@ def small_key_value(ty, with_null=True):
     """Values from a small pool so that keys collide / dangle / are null."""
     ty = ty.upper()
     if ty == 'UNIQUE_ID':
-        return st.sampled_from(([0] if with_null else []) + [1, 2, 3, 2 ** 100])
+        return st.sampled_from(([0] if with_null else []) + [1, 1, 2, 2 ** 100])
     if ty == 'INTEGER':
-        return st.sampled_from([0, 1, 2, -1, 2 ** 65])
+        return st.sampled_from([0, 1, 1, -1, 2 ** 65])
     if ty == 'STRING':
-        return st.sampled_from(([''] if with_null else []) + ['a', 'b', "c'", 'A'])
+        return st.sampled_from(([''] if with_null else []) + ['a', 'a', "c'", 'A'])
     if ty == 'BOOLEAN':
         return st.booleans()
     if ty == 'REAL':
